@@ -712,7 +712,8 @@ impl System for PollSys {
             }
         }
         out.push(PoAct::TouchAll);
-        if depth <= 1 && self.report.reset {
+        // (only in the exploration that also has the reset storms: the first channel)
+        if depth <= 1 && self.report.reset && !self.storms.is_empty() {
             out.push(PoAct::ProgressAll);
         }
         out.push(PoAct::Reset);
